@@ -302,14 +302,14 @@ theorem busVal_reverse (s : St) (inp : List Bool) (ws : List Nat) :
 theorem Bnd.reverse {s : St} {ws : List Nat} (h : Bnd s ws) : Bnd s ws.reverse :=
   fun w hw => h w (List.mem_reverse.mp hw)
 
-/-- `NewUDividerLong` for a non-zero divisor and result widths up to the operand
-width: quotient `a / b` (low `nq` bits), remainder `a mod b` (low `nr` bits). -/
+/-- `NewUDividerLong` for a non-zero divisor and EVERY result width: quotient
+`(a / b) mod 2^nq`, remainder `(a mod b) mod 2^nr` (bits above the operand
+width are the zero wire). -/
 theorem uDividerLong_spec {s : St} {inp : List Bool} (hwf : WF s inp) (gmw : Bool) {a b : List Nat} (nq nr : Nat)
     (ha : Bnd s a) (hb : Bnd s b) (hne : 0 < max a.length b.length) (hB : 0 < toNat (busVal s inp b)) :
     Spec inp s (uDividerLong gmw a b nq nr) (fun t s' => Bnd s' t.1 ∧ Bnd s' t.2 ∧
-      t.1.length = min nq (max a.length b.length) ∧ t.2.length = min nr (max a.length b.length) ∧
-      toNat (busVal s' inp t.1) =
-        (toNat (busVal s inp a) / toNat (busVal s inp b)) % 2 ^ (min nq (max a.length b.length)) ∧
+      t.1.length = nq ∧ t.2.length = nr ∧
+      toNat (busVal s' inp t.1) = (toNat (busVal s inp a) / toNat (busVal s inp b)) % 2 ^ nq ∧
       toNat (busVal s' inp t.2) = (toNat (busVal s inp a) % toNat (busVal s inp b)) % 2 ^ nr) := by
   unfold uDividerLong
   refine Spec.bind (zeroPad_spec hwf ha hb) ?_
@@ -325,17 +325,39 @@ theorem uDividerLong_spec {s : St} {inp : List Bool} (hwf : WF s inp) (gmw : Boo
   have hBv : toNat (busVal s2 inp p.2) = toNat (busVal s inp b) := by
     rw [busVal_ext e2 hp2, hv2, toNat_padTo]
   have hR0 : toNat (busVal s2 inp r0) = 0 := by rw [hr0v]; simp
-  refine (divLongLoop_spec gmw p.2 nq (max a.length b.length) hne hlen2 p.1.reverse r0 e2.wf (hp2.mono e2)
+  refine Spec.bind (divLongLoop_spec gmw p.2 nq (max a.length b.length) hne hlen2 p.1.reverse r0 e2.wf (hp2.mono e2)
     ((hp1.mono e2).reverse) hr0b hr0l (by simp [hlen1]) (by rw [hBv]; exact hB) (by rw [hR0, hBv]; exact hB)
-    (by rw [hR0]; exact Nat.two_pow_pos _)).map ?_
-  intro t s3 _ ⟨ht1, ht2, ht1l, ht2l, htq, htr⟩
+    (by rw [hR0]; exact Nat.two_pow_pos _)) ?_
+  intro t s3 e3 ⟨ht1, ht2, ht1l, ht2l, htq, htr⟩
   have hT : toNat (busVal s2 inp r0) * 2 ^ p.1.reverse.length + msbVal (busVal s2 inp p.1.reverse) =
       toNat (busVal s inp a) := by
     rw [hR0, busVal_reverse, msbVal_reverse, busVal_ext e2 hp1, hv1, toNat_padTo]; simp
   rw [hT, hBv] at htq htr
   simp only [List.length_reverse, hlen1] at ht1l htq
-  refine ⟨ht1, ht2.take nr, ht1l, by simp [ht2l], htq, ?_⟩
-  rw [busVal_take, toNat_take, htr]
+  refine Spec.bind (zeros_spec e3.wf _) ?_
+  intro zq s4 e4 ⟨hzqb, hzqv⟩
+  refine Spec.bind (zeros_spec e4.wf _) ?_
+  intro zr s5 e5 ⟨hzrb, hzrv⟩
+  have hzql : zq.length = nq - max a.length b.length := by
+    have := congrArg List.length hzqv; simpa [hlen1] using this
+  have hzrl : zr.length = nr - max a.length b.length := by
+    have := congrArg List.length hzrv; simpa [hlen1] using this
+  have e45 := e4.trans e5
+  have halt := toNat_lt (busVal s inp a)
+  have hAn : toNat (busVal s inp a) < 2 ^ max a.length b.length :=
+    Nat.lt_of_lt_of_le halt (Nat.pow_le_pow_right (by omega) (by simp; omega))
+  refine Spec.pure e5.wf ⟨(ht1.mono e45).append (hzqb.mono e5), ((ht2.take nr).mono e45).append hzrb, ?_, ?_, ?_, ?_⟩
+  · rw [List.length_append, ht1l, hzql]; omega
+  · rw [List.length_append, List.length_take, ht2l, hzrl]; omega
+  · rw [busVal_append, busVal_ext e5 hzqb, hzqv, toNat_append_zeros, busVal_ext e45 ht1, htq]
+    by_cases h : nq ≤ max a.length b.length
+    · rw [Nat.min_eq_left h]
+    · rw [Nat.min_eq_right (by omega)]
+      have hq : toNat (busVal s inp a) / toNat (busVal s inp b) < 2 ^ max a.length b.length :=
+        Nat.lt_of_le_of_lt (Nat.div_le_self _ _) hAn
+      have hp : 2 ^ max a.length b.length ≤ 2 ^ nq := Nat.pow_le_pow_right (by omega) (by omega)
+      rw [Nat.mod_eq_of_lt hq, Nat.mod_eq_of_lt (by omega)]
+  · rw [busVal_append, hzrv, toNat_append_zeros, busVal_ext e45 (ht2.take nr), busVal_take, toNat_take, htr]
 
 /-! ### signed division -/
 
@@ -400,38 +422,31 @@ theorem absN_eq (av : List Bool) (hne : av ≠ []) (A1 : Nat)
     (if av.getLastD false then A1 else toNat av) = absN av := by
   simp only [absN, hA1]
 
-/-- `NewIDivider` (long divider inside), result widths up to the operand
-width, divisor magnitude non-zero: quotient `± |a| / |b|` with the sign
-`sign a ≠ sign b`, remainder `|a| mod |b|`. -/
-theorem iDivider_spec {s : St} {inp : List Bool} (hwf : WF s inp) (gmw : Bool) {a b : List Nat} (nq nr : Nat)
-    (ha : Bnd s a) (hb : Bnd s b) (hne : 0 < max a.length b.length) (hnq : nq ≤ max a.length b.length)
-    (hB : 0 < absN (padTo (busVal s inp b) (max a.length b.length))) :
-    Spec inp s (iDivider gmw a b nq nr) (fun t s' => Bnd s' t.1 ∧ Bnd s' t.2 ∧
-      t.1.length = nq ∧ t.2.length = min nr (max a.length b.length) ∧
+/-- The signed divider on operands of a common width `n > 0` (long divider
+inside), every result width, divisor magnitude non-zero: quotient
+`± |a| / |b|` with the sign `sign a ≠ sign b` (two's complement at the quotient
+width), remainder `|a| mod |b|`. -/
+theorem iDividerCore_spec {s : St} {inp : List Bool} (hwf : WF s inp) {p1 p2 : List Nat} (nq nr : Nat)
+    (hp1 : Bnd s p1) (hp2 : Bnd s p2) (hl : p1.length = p2.length) (hne : 0 < p1.length)
+    (hB : 0 < absN (busVal s inp p2)) :
+    Spec inp s (iDividerCore false p1 p2 nq nr) (fun t s' => Bnd s' t.1 ∧ Bnd s' t.2 ∧
+      t.1.length = nq ∧ t.2.length = nr ∧
       toNat (busVal s' inp t.1) =
-        (if ((padTo (busVal s inp a) (max a.length b.length)).getLastD false !=
-            (padTo (busVal s inp b) (max a.length b.length)).getLastD false)
-          then (2 ^ nq - (absN (padTo (busVal s inp a) (max a.length b.length)) /
-            absN (padTo (busVal s inp b) (max a.length b.length))) % 2 ^ nq) % 2 ^ nq
-          else (absN (padTo (busVal s inp a) (max a.length b.length)) /
-            absN (padTo (busVal s inp b) (max a.length b.length))) % 2 ^ nq) ∧
-      toNat (busVal s' inp t.2) = (absN (padTo (busVal s inp a) (max a.length b.length)) %
-        absN (padTo (busVal s inp b) (max a.length b.length))) % 2 ^ nr) := by
-  unfold iDivider
-  refine Spec.bind (zeroPad_spec hwf ha hb) ?_
-  intro p s1 e1 ⟨hp1, hp2, hv1, hv2⟩
-  simp only
-  generalize hn : max a.length b.length = n at *
-  generalize hav : padTo (busVal s inp a) n = av at *
-  generalize hbv : padTo (busVal s inp b) n = bv at *
-  have hlen1 : p.1.length = n := by
-    have := congrArg List.length hv1; rw [← hav] at this; simp at this; omega
-  have hlen2 : p.2.length = n := by
-    have := congrArg List.length hv2; rw [← hbv] at this; simp at this; omega
-  have havl : av.length = n := by rw [← hv1]; simp [hlen1]
-  have hbvl : bv.length = n := by rw [← hv2]; simp [hlen2]
-  have hp1ne : p.1 ≠ [] := by intro h; rw [h] at hlen1; simp at hlen1; omega
-  have hp2ne : p.2 ≠ [] := by intro h; rw [h] at hlen2; simp at hlen2; omega
+        (if ((busVal s inp p1).getLastD false != (busVal s inp p2).getLastD false)
+          then (2 ^ nq - (absN (busVal s inp p1) / absN (busVal s inp p2)) % 2 ^ nq) % 2 ^ nq
+          else (absN (busVal s inp p1) / absN (busVal s inp p2)) % 2 ^ nq) ∧
+      toNat (busVal s' inp t.2) = (absN (busVal s inp p1) % absN (busVal s inp p2)) % 2 ^ nr) := by
+  unfold iDividerCore
+  simp only [uDivider, Bool.false_eq_true, if_false]
+  obtain ⟨n, hlen1⟩ : ∃ n, p1.length = n := ⟨_, rfl⟩
+  have hlen2 : p2.length = n := by omega
+  have havl : (busVal s inp p1).length = n := by simp [hlen1]
+  have hbvl : (busVal s inp p2).length = n := by simp [hlen2]
+  generalize hv1 : busVal s inp p1 = av at *
+  generalize hv2 : busVal s inp p2 = bv at *
+  have e1 : Ext s s inp := Ext.refl hwf
+  have hp1ne : p1 ≠ [] := by intro h; rw [h] at hlen1; simp at hlen1; omega
+  have hp2ne : p2 ≠ [] := by intro h; rw [h] at hlen2; simp at hlen2; omega
   refine Spec.bind (zeroWire_spec e1.wf) ?_
   intro zero s2 e2 hzero
   refine Spec.bind (inv_spec e2.wf hzero) ?_
@@ -440,10 +455,10 @@ theorem iDivider_spec {s : St} {inp : List Bool} (hwf : WF s inp) (gmw : Bool) {
   have e13 := (e1.trans e2).trans e3
   have e23 := e2.trans e3
   -- a1 = -a
-  refine Spec.bind (negate_spec e3.wf gmw (hzero.mono e3) (hp1.mono e23) (by omega)) ?_
+  refine Spec.bind (negate_spec e3.wf false (hzero.mono e3) (hp1.mono e23) (by omega)) ?_
   intro a1 s4 e4 ⟨ha1b, ha1l, ha1v⟩
   rw [busVal_ext e23 hp1, hv1, hlen1] at ha1v
-  have hsa : Holds s4 inp (p.1.getLastD 0) (av.getLastD false) :=
+  have hsa : Holds s4 inp (p1.getLastD 0) (av.getLastD false) :=
     Holds.mono (e23.trans e4) ⟨getLastD_mem_bnd hp1 hp1ne, by rw [val_getLastD _ hp1ne, hv1]⟩
   refine Spec.bind (muxBits_single_spec e4.wf (Nat.lt_of_lt_of_le hneg1.1 e4.next)
     (Nat.lt_of_lt_of_le hzero.1 (e3.trans e4).next) hsa.1) ?_
@@ -471,10 +486,10 @@ theorem iDivider_spec {s : St} {inp : List Bool} (hwf : WF s inp) (gmw : Bool) {
   intro neg3 s7 e7 hneg3
   have e27 := (e25.trans e6).trans e7
   have ez7 := ((e3.trans e4).trans e5).trans (e6.trans e7)
-  refine Spec.bind (negate_spec e7.wf gmw (hzero.mono ez7) (hp2.mono e27) (by omega)) ?_
+  refine Spec.bind (negate_spec e7.wf false (hzero.mono ez7) (hp2.mono e27) (by omega)) ?_
   intro b1 s8 e8 ⟨hb1b, hb1l, hb1v⟩
   rw [busVal_ext e27 hp2, hv2, hlen2] at hb1v
-  have hsb : Holds s8 inp (p.2.getLastD 0) (bv.getLastD false) :=
+  have hsb : Holds s8 inp (p2.getLastD 0) (bv.getLastD false) :=
     Holds.mono (e27.trans e8) ⟨getLastD_mem_bnd hp2 hp2ne, by rw [val_getLastD _ hp2ne, hv2]⟩
   refine Spec.bind (muxBits_single_spec e8.wf (Nat.lt_of_lt_of_le hneg3.1 e8.next)
     (Nat.lt_of_lt_of_le hneg2'.1 ((e6.trans e7).trans e8).next) hsb.1) ?_
@@ -503,25 +518,21 @@ theorem iDivider_spec {s : St} {inp : List Bool} (hwf : WF s inp) (gmw : Bool) {
   split
   · next hq0 =>
     subst hq0
-    refine (uDividerLong_spec e10.wf gmw 0 nr (ha2b.mono e610) hb2b (by omega) (by rw [hb2n]; exact hB)).mono ?_
+    refine (uDividerLong_spec e10.wf false 0 nr (ha2b.mono e610) hb2b (by omega) (by rw [hb2n]; exact hB)).mono ?_
     intro t s11 _ ⟨ht1, ht2, ht1l, ht2l, htq, htr⟩
-    rw [hmx] at ht1l ht2l htq
     rw [ha2n', hb2n] at htq htr
-    refine ⟨ht1, ht2, by simpa using ht1l, ht2l, ?_, htr⟩
+    refine ⟨ht1, ht2, ht1l, ht2l, ?_, htr⟩
     have : t.1 = [] := by
       have : t.1.length = 0 := by simpa using ht1l
       exact List.length_eq_zero_iff.mp this
     rw [this]; simp [Nat.mod_one]
   · next hq0 =>
-    refine Spec.bind (uDividerLong_spec e10.wf gmw nq nr (ha2b.mono e610) hb2b (by omega)
+    refine Spec.bind (uDividerLong_spec e10.wf false nq nr (ha2b.mono e610) hb2b (by omega)
       (by rw [hb2n]; exact hB)) ?_
     intro d s11 e11 ⟨hd1, hd2, hd1l, hd2l, hdq, hdr⟩
-    rw [hmx] at hd1l hd2l hdq
     rw [ha2n', hb2n] at hdq hdr
-    have hmin : min nq n = nq := by omega
-    rw [hmin] at hd1l hdq
     have ez11 := ((ez7.trans e8).trans (e9.trans e10)).trans e11
-    have hnegate := negate_spec e11.wf gmw (hzero.mono ez11) hd1 (by omega)
+    have hnegate := negate_spec e11.wf false (hzero.mono ez11) hd1 (by omega)
     rw [hd1l] at hnegate
     refine Spec.bind hnegate ?_
     intro q1 s12 e12 ⟨hq1b, hq1l, hq1v⟩
@@ -541,6 +552,65 @@ theorem iDivider_spec {s : St} {inp : List Bool} (hwf : WF s inp) (gmw : Bool) {
       · simp only [Bool.false_eq_true, if_false]; exact hdq
       · simp only [if_true]; rw [hq1v]
     · rw [busVal_ext (e12.trans e13') hd2]; exact hdr
+
+
+/-- `NewIDivider` as in the code (long divider inside; operands ZERO padded to
+the common width `m`): the statement of `iDividerCore_spec` for the zero padded
+operands. -/
+theorem iDivider_spec {s : St} {inp : List Bool} (hwf : WF s inp) {a b : List Nat} (nq nr : Nat)
+    (ha : Bnd s a) (hb : Bnd s b) (hne : 0 < max a.length b.length)
+    (hB : 0 < absN (padTo (busVal s inp b) (max a.length b.length))) :
+    Spec inp s (iDivider false a b nq nr) (fun t s' => Bnd s' t.1 ∧ Bnd s' t.2 ∧
+      t.1.length = nq ∧ t.2.length = nr ∧
+      toNat (busVal s' inp t.1) =
+        (if ((padTo (busVal s inp a) (max a.length b.length)).getLastD false !=
+            (padTo (busVal s inp b) (max a.length b.length)).getLastD false)
+          then (2 ^ nq - (absN (padTo (busVal s inp a) (max a.length b.length)) /
+            absN (padTo (busVal s inp b) (max a.length b.length))) % 2 ^ nq) % 2 ^ nq
+          else (absN (padTo (busVal s inp a) (max a.length b.length)) /
+            absN (padTo (busVal s inp b) (max a.length b.length))) % 2 ^ nq) ∧
+      toNat (busVal s' inp t.2) = (absN (padTo (busVal s inp a) (max a.length b.length)) %
+        absN (padTo (busVal s inp b) (max a.length b.length))) % 2 ^ nr) := by
+  unfold iDivider
+  refine Spec.bind (zeroPad_spec hwf ha hb) ?_
+  intro p s1 e1 ⟨hp1, hp2, hv1, hv2⟩
+  have hlen1 : p.1.length = max a.length b.length := by
+    have := congrArg List.length hv1; simp at this; omega
+  have hlen2 : p.2.length = max a.length b.length := by
+    have := congrArg List.length hv2; simp at this; omega
+  have := iDividerCore_spec e1.wf nq nr hp1 hp2 (by omega) (by omega) (by rw [hv2]; exact hB)
+  rw [hv1, hv2] at this
+  exact this.mono (fun t s2 _ h => h)
+
+/-- The PROPOSED REPAIR `iDividerSignPad` (operands sign extended to the common
+width). -/
+theorem iDividerSignPad_spec {s : St} {inp : List Bool} (hwf : WF s inp) {a b : List Nat} (nq nr : Nat)
+    (ha : Bnd s a) (hb : Bnd s b) (hane : 0 < a.length) (hbne : 0 < b.length)
+    (hB : 0 < absN (sextTo (busVal s inp b) (max a.length b.length))) :
+    Spec inp s (iDividerSignPad a b nq nr) (fun t s' => Bnd s' t.1 ∧ Bnd s' t.2 ∧
+      t.1.length = nq ∧ t.2.length = nr ∧
+      toNat (busVal s' inp t.1) =
+        (if ((sextTo (busVal s inp a) (max a.length b.length)).getLastD false !=
+            (sextTo (busVal s inp b) (max a.length b.length)).getLastD false)
+          then (2 ^ nq - (absN (sextTo (busVal s inp a) (max a.length b.length)) /
+            absN (sextTo (busVal s inp b) (max a.length b.length))) % 2 ^ nq) % 2 ^ nq
+          else (absN (sextTo (busVal s inp a) (max a.length b.length)) /
+            absN (sextTo (busVal s inp b) (max a.length b.length))) % 2 ^ nq) ∧
+      toNat (busVal s' inp t.2) = (absN (sextTo (busVal s inp a) (max a.length b.length)) %
+        absN (sextTo (busVal s inp b) (max a.length b.length))) % 2 ^ nr) := by
+  unfold iDividerSignPad
+  simp only [signPad]
+  have han : a ≠ [] := by intro h; rw [h] at hane; simp at hane
+  have hbn : b ≠ [] := by intro h; rw [h] at hbne; simp at hbne
+  obtain ⟨hp1, hv1⟩ := signExt_spec (inp := inp) (max a.length b.length) ha han
+  obtain ⟨hp2, hv2⟩ := signExt_spec (inp := inp) (max a.length b.length) hb hbn
+  have hlen1 : (signExt a (max a.length b.length)).length = max a.length b.length := by
+    have := congrArg List.length hv1; simp at this; omega
+  have hlen2 : (signExt b (max a.length b.length)).length = max a.length b.length := by
+    have := congrArg List.length hv2; simp at this; omega
+  have := iDividerCore_spec hwf nq nr hp1 hp2 (by omega) (by omega) (by rw [hv2]; exact hB)
+  rw [hv1, hv2] at this
+  exact this
 
 /-! ### from magnitudes to two's complement integers -/
 
